@@ -5,7 +5,7 @@ import vcheck
 from vcheck import DiffProperty
 
 ARITY = {"new": 4, "res": 3, "set": 5, "ins": 3, "cut": 3, "det": 2, "cln": 2, "rel": 1, "trim": 2, "skip": 2,
-         "app": 2, "slen": 2, "cpy": 2, "mov": 2}
+         "app": 2, "slen": 2, "cpy": 2, "mov": 2, "uins": 2, "ures": 2, "itest": 3}
 NH = 3
 END_OK = "end|live=0|leak=0"
 REQUIRE = ("ok: every constructor call creates a new element, every destructor call hits a live element exactly once, "
@@ -98,6 +98,9 @@ def gen_case(rng, cxx=True, fail=True, maxops=14, lib=None):
         names = ["set", "set", "set", "ins", "ins", "cut", "cut", "det", "det", "cln", "cln", "rel", "res", "res"]
         if cxx:
             names += ["trim", "trim", "skip", "skip", "app", "slen", "slen", "cpy", "cpy", "mov"]
+        if cxx and not lib and script == "-":
+            # C++ unique_array<T> on arrays of kind a (constructors of the template never fail)
+            names += ["uins", "uins", "ures"]
         if lib and lib[0] == "cmd":
             # elements made by the harness carry a handler and cannot be copied: no buffer-to-buffer copies
             names = [x for x in names if x not in ("cln", "cpy")]
@@ -177,6 +180,20 @@ def gen_case(rng, cxx=True, fail=True, maxops=14, lib=None):
             ops.append(["slen", h, ln])
             if b and ln // s <= cap:
                 b["n"] = ln // s
+        elif o == "uins":
+            n, cap, s = elems(h)
+            pos = rng.choice([0, 0, 1, n // 2, max(0, n - 1), n, n, n + 1, n + 3])
+            ops.append(["uins", h, pos])
+            if b and k == "a":
+                b["n"] = max(n, pos) + 1
+                b["cap"] = max(b["cap"], cap_of(b["n"] * s))
+        elif o == "ures":
+            n, cap, s = elems(h)
+            nn = rng.choice([0, 1, max(0, n - 1), n, n + 1, n + 2, cap, cap + 1])
+            ops.append(["ures", h, nn])
+            if b and k == "a":
+                b["n"] = nn
+                b["cap"] = max(b["cap"], cap_of(nn * s))
         elif o in ("cpy", "mov"):
             g = rng.randrange(NH)
             ops.append([o, h, g])
@@ -227,8 +244,23 @@ def sweep_cases(tier="quick"):
                     tail.append(("-", ["trim", 0, ln * s]))
                     tail.append(("-", ["skip", 0, ln * s]))
                     tail.append(("-", ["app", 0, ln * s]))
+                    tail.append(("-", ["uins", 0, ln]))
+                    tail.append(("-", ["ures", 0, ln]))
+                    tail.append(("-", ["ures", 0, cap + 1 + ln]))
                 for script, t in tail:
                     out.append(" ".join(["A%d" % s, "B%d" % other, "s" + script] + [str(x) for x in pre + t]))
+        # C++ unique_array<T> starting from the empty array (static dummy buffer)
+        for a in range(0, cap + 3):
+            for b2 in range(0, cap + 3):
+                out.append("A%d B%d s- uins 0 %d uins 0 %d ures 0 %d" % (s, other, a, b2, a))
+                out.append("A%d B%d s- ures 0 %d uins 0 %d cln 1 0 uins 1 %d ures 0 %d" % (s, other, a, b2, a, b2))
+    # item_array<T>::compact on library items: every pattern of empty / filled items
+    for n in range(1, 5 if quick else 7):
+        for names in (0, 1):
+            ops = []
+            for mask in range(0, 1 << n):
+                ops += ["itest", mask, n, names]
+            out.append(" ".join(["A8", "B16", "s-"] + [str(x) for x in ops]))
     return out
 
 
@@ -245,13 +277,51 @@ class C05(DiffProperty):
     harness_env = dict(vcheck.ASAN_LEAK_ENV,
                        ASAN_OPTIONS=vcheck.ASAN_LEAK_ENV["ASAN_OPTIONS"] + ":symbolize=0")
     extra_harness_flags = ["-fno-sanitize=vptr"]
-    rule = ""
-    modelled = ""
-    trusted = []
-    level_text = ""
-    level_note = ""
-    technique = "Coq invariant proof over an event-logging heap model + runtime monitor extracted from the Coq specification + differential correspondence check"
-    assumptions = []
+    rule = ("a case = element sizes of the two harness traits (8/16/24) or a library element type (identifier, array, metatype "
+            "reference, config item, command) + script of failing constructor calls + a history over 3 handles of "
+            "new(len,flags immutable/nocopy) / mpt_array_reserve(same type, other type, raw) / mpt_buffer_set(with and without source "
+            "elements) / mpt_buffer_insert+construct / mpt_buffer_cut / vtable detach / mpt_array_clone (share) / release / C++ "
+            "buffer::trim, skip, append, copy, move, content<T>::set_length, unique_array<T>::insert, resize / item_array::compact "
+            "scenario; quick: small-scope sweep = every fill 0..capacity of a 64-byte buffer (8/16/24-byte elements; subset of fills "
+            "for 8) x unshared/shared x one operation at EVERY element position and length inside, at the end of, behind the data "
+            "and behind the buffer, each with 4-5 constructor-failure scripts, plus unique_array from the empty array and every "
+            "empty/filled pattern of <= 4 items for compact, plus 2500 random histories (<= 14 ops, positions drawn around used "
+            "and capacity, 4% misaligned) with harness traits and 830 with library element types; thorough: full sweep + 60000 + "
+            "20000 random histories (<= 25 ops); a case is non-trivial when it runs at least one operation (all are); "
+            "distinct = distinct case text")
+    modelled = ("mptcore/array/buffer_set.c, buffer_cut.c, buffer_insert.c, buffer_alloc.c (alloc size, get_flags, addref, unref, detach), "
+                "array_reserve.c, array_clone.c; mpt++/array.cpp buffer::trim/skip/append/copy/move; mptcore/array.h "
+                "content<T>::set_length, unique_array<T>::reserve/insert/resize transcribed in coq/C05/TypedModel.v (byte offsets, "
+                "element slots carrying tokens, ghost event log, constructor failure script). Element types of the library "
+                "(array_traits.c, meta_reference_traits.c, config_item_traits.c, command_traits.c, identifier.c) and "
+                "item_array<T>::compact are NOT modelled individually: they are driven through the same histories / a self-checking "
+                "scenario with ASan + LeakSanitizer + reference counters as observers (events and tokens compared only for the "
+                "harness traits). Not modelled: raw byte contents, compatible-but-different traits (same fini and size), traits "
+                "without init (reference_array), malloc failure, mpt_array_set/mpt_array_slice/append/insert (C04), _mpt_buffer_map")
+    trusted = ["harness/c05_typed.cpp: traits whose init/fini log events and store magic+token in the element; state read back from "
+               "the data area independently of the library; mpt++/array.cpp compiled into the harness with -fno-sanitize=vptr "
+               "(buffers carry the C vtable)",
+               "the specification monitor of coq/C05/TypedSpec.v is run (extracted) on the log printed by the IMPLEMENTATION; "
+               "ml/c05_driver.ml parses that log",
+               "allocation header 64 bytes / page 128 bytes are constants of the driver (a change shows as a size difference)"]
+    level_text = ("proof: Coq theorems C05_elements_exactly_once (every history over any number of handles, any positions/lengths, any "
+                  "script of failing constructors, followed by the release of all handles: no step faults, no buffer is left, the event "
+                  "log satisfies exactly_once - one Init per token, Fini only on a live element, copies only from live elements, never a "
+                  "destructor or copy on non-element memory - and every initialised token is finalised), "
+                  "C05_stored_is_live_at_every_point (after every prefix: live tokens = used element slots of the allocated buffers, each "
+                  "once), C05_shared_copy_constructs (detach of a shared typed buffer logs exactly one Init-from per element, fresh "
+                  "tokens, source untouched), C05_step_never_faults, C05_monitor_sound; the model is tied to the code on every run by "
+                  "differential execution of histories (events compared one by one, state read back, live set empty at the end) under "
+                  "ASan/UBSan/LeakSanitizer, and the extracted monitor judges the log the implementation printed")
+    level_note = ("trusted: Coq kernel; hand transcription of the C/C++ loops (validated by the correspondence run, not verified); "
+                  "extraction and OCaml driver; harness. Theorems are closed under the global context. Library element types and "
+                  "item_array::compact are covered at correspondence level only (sanitizers and counters as observers); "
+                  "the theorem about shared copies assumes constructors that succeed and a type that allows copies; traits without "
+                  "init (reference_array, protected by BufferNoCopy) and compatible-but-different traits are out of the model.")
+    technique = ("Coq invariant proof over an event-logging heap model (closed forms of the byte-offset loops, frame lemma per operation, "
+                 "fold over histories) + runtime monitor extracted from the Coq specification + differential correspondence check")
+    assumptions = ["malloc succeeds", "element constructors/destructors of the harness traits have no effect besides the log and the element bytes",
+                   "allocation header of _mpt_buffer_alloc is 64 bytes, page 128 bytes (checked by the size observable)"]
 
     def split(self, case):
         t = case.split()
